@@ -206,6 +206,14 @@ class Real(object):
         self.cache = {}
 
     def run(self, text, data, raw_context=None, timeout=3.0):
+        # (the watchdog may fire between the evaluation and its own handlers: a second net around the whole call)
+        try:
+            return self._run(text, data, raw_context, timeout)
+        except c08.Alarm:
+            signal.setitimer(signal.ITIMER_REAL, 0)
+            return ['e', 'timeout'], list(self.log)
+
+    def _run(self, text, data, raw_context=None, timeout=3.0):
         st = self.cache.get(text)
         del self.log[:]
         signal.signal(signal.SIGALRM, c08._alarm)
